@@ -129,7 +129,8 @@ def string_cases(rng):
     yield 'plus', '$s + $u + %s' % lit(new), v, lambda: s + sub + new
     yield 'in', '$u in $s', v, lambda: M._find(s, sub, 0, len(s)) >= 0
     yield 'isString', 'isString($s)', v, lambda: True
-    items = [rng.choice(['a', 'b', '', 1, None, True, 2.5, 'ab']) for _ in range(rng.randrange(0, 4))]
+    # (values that are equal in python but spelled differently - true / 1 / 1.0, false / 0 / 0.0 - each keep their own text)
+    items = [rng.choice(['a', 'b', '', 1, None, True, 2.5, 'ab', 1.0, 0, False, 0.0, -0.0, 1, True]) for _ in range(rng.randrange(0, 6))]
     v3 = {'s': s, 'items': tuple(items)}
     yield 'join', '$items.join($s)', v3, lambda: M.join(s, items)
     yield 'join-rev', '$s.join($items)', v3, lambda: M.join(s, items)
